@@ -22,11 +22,11 @@ Print Assumptions C04_set_after_get_never_panics.
 
 (* Apply in the stated domain of C01 never panics *)
 Theorem C04_apply_in_domain_never_panics : forall o indent p doc t,
-  (has_copy p -> codec_ok) -> plain_opts o -> parse doc = Some t -> root_container t = true -> tnodup t = true ->
+  plain_opts o -> parse doc = Some t -> root_container t = true -> tnodup t = true ->
   Forall op_dom p -> api_apply o indent p doc <> RPanic.
 Proof.
-  intros o indent p doc t CO PO P RC T D.
-  pose proof (api_apply_sim o indent p doc t CO PO P RC T D) as S.
+  intros o indent p doc t PO P RC T D.
+  pose proof (api_apply_sim o indent p doc t PO P RC T D) as S.
   destruct (rfc_apply (dia o) (den t) (map den_op p)).
   - destruct S as [n [S _]]. rewrite S. discriminate.
   - destruct S as [e [S _]]. rewrite S. discriminate.
